@@ -1,3 +1,423 @@
-/- C07: property theorems (stub — not built yet) -/
+import RSVerif.Lemmas.ParallelRestoreProgress
+import RSVerif.Generated.C07Facts
+/-
+C07 — Parallel full sync restores every key exactly once into the right database.
+
+Model: `Model/ParallelRestore.lean` (worker pool of `syncRDBFile` / `restoreRDBFile`, small-step, N workers, one FIFO queue,
+`Spec/MiniRedisC07.lean` target with a selected database per connection).  Every theorem quantifies over the number of workers,
+the entry list (keys spread over any databases in any order), the configuration (`target.db`, filter predicates, `restoreCmds`)
+and ALL schedules `evs : List Ev` — command-granular interleavings including error replies.
+
+  conn_db_invariant, restore_cmd_runs_in_route, lands_in_route   the db discipline
+  each_once, each_once_on_success, each_once_schedule_independent, scripts_loaded_once, at_most_once
+  terminates_after_all, error_reported, failure_is_real
+  parallel1_in_order, value_equality_partial                     (value equality under `parallel = 1 ∨ ¬chunked`, D12)
+  counterexample_restore_error_dropped (D11, pinned restore mode), counterexample_chunked_hash_parallel (D12)
+  worker_progress, exists_complete_run                            (no deadlock; hypotheses satisfiable for EVERY input)
+  source_facts                                                    (structural facts regenerated from the Go source)
+-/
 namespace RSVerif.Properties.C07
+open RSVerif RSVerif.Spec.MiniRedisC07 RSVerif.Model.ParallelRestore RSVerif.Lemmas.ParallelRestore
+
+/-! ## conn_db_invariant -/
+
+/-- On every connection, at every moment a worker is about to send a command of `RestoreRdbEntry(c, e)`, the
+    database selected on the *server side* of that connection is the worker's `lastdb`, and that is `route cfg e.DB`
+    — for every number of workers, entry list and command-level interleaving. -/
+theorem conn_db_invariant (cfg : Cfg) (n : Nat) (entries : List Entry) (evs : List Ev)
+    (w : Nat) (e : Entry) (c : DataCmd) (rest : List DataCmd)
+    (h : ((run cfg (init n entries) evs).workers w).phase = .run e (c :: rest)) :
+    (run cfg (init n entries) evs).server.sel w = ((run cfg (init n entries) evs).workers w).lastdb ∧
+    ((run cfg (init n entries) evs).workers w).lastdb = route cfg e.db := by
+  have := (reachable cfg n entries evs).inv.worker w
+  simp only [WorkerOk, h] at this
+  exact ⟨this.1, this.2.1⟩
+
+/-- … hence the very command that is then executed is logged by the server under `route cfg e.DB`. -/
+theorem restore_cmd_runs_in_route (cfg : Cfg) (n : Nat) (entries : List Entry) (evs : List Ev)
+    (w : Nat) (hw : w < n) (fail : Bool) (e : Entry) (c : DataCmd) (rest : List DataCmd)
+    (h : ((run cfg (init n entries) evs).workers w).phase = .run e (c :: rest)) :
+    (run cfg (init n entries) (evs ++ [.worker w fail])).server.log =
+      (run cfg (init n entries) evs).server.log ++ [{ conn := w, db := route cfg e.db, cmd := c, ok := !fail }] := by
+  obtain ⟨h1, h2⟩ := conn_db_invariant cfg n entries evs w e c rest h
+  have hn : w < (run cfg (init n entries) evs).n := by rw [run_n]; exact hw
+  simp only [run, List.foldl_append, List.foldl_cons, List.foldl_nil, step]
+  simp only [run] at h h1 h2 hn
+  rw [if_pos hn]
+  unfold stepWorker
+  simp only [h]
+  cases fail
+  · simp [h1, h2]
+  · cases cfg.mode <;> simp [h1, h2]
+
+/-- Every command the target ever executed belongs to an entry that passes the filters and ran in the database the
+    property demands for that entry: its own source database, or `target.db` when configured. -/
+theorem lands_in_route (cfg : Cfg) (n : Nat) (entries : List Entry) (evs : List Ev) :
+    ∀ x ∈ (run cfg (init n entries) evs).server.log,
+      ∃ e ∈ entries, passes cfg e = true ∧ x.cmd ∈ cfg.restoreCmds e ∧ x.db = route cfg e.db :=
+  (reachable cfg n entries evs).inv.log
+
+/-! ## terminates_after_all, error_reported -/
+
+/-- The parent returns only when every worker has returned; a successful return (with at least one worker)
+    means the queue is exhausted, no worker holds an entry, and no error slot is set; whatever the result, either
+    the queue is exhausted or every worker stopped on an error. -/
+theorem terminates_after_all (cfg : Cfg) (n : Nat) (entries : List Entry) (evs : List Ev) (r : Bool)
+    (h : (run cfg (init n entries) evs).result = some r) :
+    (∀ w, w < n → ((run cfg (init n entries) evs).workers w).phase = .returned) ∧
+    (∀ w, w < n → pendingOf cfg ((run cfg (init n entries) evs).workers w) = []) ∧
+    ((run cfg (init n entries) evs).queue = [] ∨ ∀ w, w < n → ((run cfg (init n entries) evs).workers w).err = true) ∧
+    (r = true → 1 ≤ n → (run cfg (init n entries) evs).queue = []) ∧
+    (r = true → ∀ w, w < n → ((run cfg (init n entries) evs).workers w).err = false) := by
+  have hall := reachable cfg n entries evs
+  have hn := run_n cfg (init n entries) evs
+  generalize run cfg (init n entries) evs = s at *
+  have hn' : s.n = n := hn
+  obtain ⟨hret, hr⟩ := hall.term.res r h
+  rw [allReturned_iff, hn'] at hret
+  have herrs : r = true → ∀ w, w < n → (s.workers w).err = false := by
+    intro hrt w hw
+    cases he : (s.workers w).err with
+    | false => rfl
+    | true =>
+      have h1 : anyErr s = true := (anyErr_iff s).mpr ⟨w, by rw [hn']; exact hw, he⟩
+      rw [h1, hrt] at hr
+      exact absurd hr (by decide)
+  refine ⟨hret, ?_, ?_, ?_, herrs⟩
+  · intro w hw; simp [pendingOf, hret w hw]
+  · by_cases hq : s.queue = []
+    · exact Or.inl hq
+    · right; intro w hw
+      rcases hall.term.ret w (by rw [hn']; exact hw) (hret w hw) with h1 | h1
+      · exact h1
+      · exact absurd h1 hq
+  · intro hrt hn1
+    rcases hall.term.ret 0 (by omega) (hret 0 (by omega)) with h1 | h1
+    · have h2 := herrs hrt 0 (by omega)
+      rw [h1] at h2
+      exact absurd h2 (by decide)
+    · exact h1
+
+/-- Sync mode (and restore mode after the fix): if the target answered any restore command with an error, the run
+    does not finish as a success. -/
+theorem error_reported (cfg : Cfg) (hm : cfg.mode ≠ .restorePinned) (n : Nat) (entries : List Entry) (evs : List Ev)
+    (r : Bool) (h : (run cfg (init n entries) evs).result = some r)
+    (hfail : ∃ x ∈ (run cfg (init n entries) evs).server.log, x.ok = false) : r = false := by
+  have hall := reachable cfg n entries evs
+  generalize run cfg (init n entries) evs = s at *
+  obtain ⟨w, hw, he⟩ := (hall.err hm).err hfail
+  have := (hall.term.res r h).2
+  rw [(anyErr_iff s).mpr ⟨w, hw, he⟩] at this
+  simpa using this
+
+/-- conversely, a reported failure is a real one (no spurious failure): an unsuccessful result means the target
+    answered some command with an error -/
+theorem failure_is_real (cfg : Cfg) (n : Nat) (entries : List Entry) (evs : List Ev)
+    (h : (run cfg (init n entries) evs).result = some false) :
+    ∃ x ∈ (run cfg (init n entries) evs).server.log, x.ok = false := by
+  have hall := reachable cfg n entries evs
+  generalize run cfg (init n entries) evs = s at *
+  have h1 := (hall.term.res false h).2
+  have h2 : anyErr s = true := by
+    cases ha : anyErr s with
+    | true => rfl
+    | false => rw [ha] at h1; exact absurd h1 (by decide)
+  obtain ⟨w, -, he⟩ := (anyErr_iff s).mp h2
+  exact hall.src.src w he
+
+/-! ## each_once -/
+
+/-- When all workers have returned and no command was answered with an error, the multiset of executed
+    `(database, command)` pairs is exactly the multiset the filtered entries call for — every passing entry's commands once,
+    in `route cfg e.DB`; nothing of a filtered entry — whatever the schedule and the number of workers. -/
+theorem each_once (cfg : Cfg) (n : Nat) (hn1 : 1 ≤ n) (entries : List Entry) (evs : List Ev)
+    (hdone : ∀ w, w < n → ((run cfg (init n entries) evs).workers w).phase = .returned)
+    (hok : ∀ x ∈ (run cfg (init n entries) evs).server.log, x.ok = true) :
+    ((run cfg (init n entries) evs).server.executed).Perm (expected cfg entries) := by
+  have hall := reachable cfg n entries evs
+  have hn := run_n cfg (init n entries) evs
+  generalize run cfg (init n entries) evs = s at *
+  have hn' : s.n = n := hn
+  have hnoerr : ∀ w, (s.workers w).err = false := by
+    intro w
+    cases he : (s.workers w).err with
+    | false => rfl
+    | true =>
+      obtain ⟨x, hx, hxo⟩ := hall.src.src w he
+      rw [hok x hx] at hxo
+      exact absurd hxo (by decide)
+  have hq : s.queue = [] := by
+    rcases hall.term.ret 0 (by omega) (hdone 0 (by omega)) with h1 | h1
+    · rw [hnoerr 0] at h1; exact absurd h1 (by decide)
+    · exact h1
+  rw [List.perm_iff_count]
+  intro p
+  have := hall.count hok p
+  rw [hq, hn', sumW_zero (fun i hi => by simp [pendingOf, hdone i hi])] at this
+  simpa [expected] using this
+
+/-- `each_once` phrased on the parent's return value (sync mode / repaired restore mode): a successful return means
+    exactly the expected multiset was executed. -/
+theorem each_once_on_success (cfg : Cfg) (hm : cfg.mode ≠ .restorePinned) (n : Nat) (hn1 : 1 ≤ n) (entries : List Entry)
+    (evs : List Ev) (h : (run cfg (init n entries) evs).result = some true) :
+    ((run cfg (init n entries) evs).server.executed).Perm (expected cfg entries) := by
+  have ht := terminates_after_all cfg n entries evs true h
+  refine each_once cfg n hn1 entries evs ht.1 ?_
+  intro x hx
+  cases hxo : x.ok with
+  | true => rfl
+  | false => exact absurd (error_reported cfg hm n entries evs true h ⟨x, hx, hxo⟩) (by simp)
+
+/-- AT MOST ONCE, unconditionally (any schedule, any error replies, finished or not): no `(database, command)` pair is
+    ever executed more often than the filtered entries call for. -/
+theorem at_most_once (cfg : Cfg) (n : Nat) (entries : List Entry) (evs : List Ev) (p : Nat × DataCmd) :
+    List.count p (run cfg (init n entries) evs).server.executed ≤ List.count p (expected cfg entries) := by
+  have := (reachable cfg n entries evs).le p
+  omega
+
+/-- independence of the schedule: any two complete error-free runs executed the same multiset -/
+theorem each_once_schedule_independent (cfg : Cfg) (n m : Nat) (hn1 : 1 ≤ n) (hm1 : 1 ≤ m) (entries : List Entry)
+    (evs evs' : List Ev)
+    (hdone : ∀ w, w < n → ((run cfg (init n entries) evs).workers w).phase = .returned)
+    (hok : ∀ x ∈ (run cfg (init n entries) evs).server.log, x.ok = true)
+    (hdone' : ∀ w, w < m → ((run cfg (init m entries) evs').workers w).phase = .returned)
+    (hok' : ∀ x ∈ (run cfg (init m entries) evs').server.log, x.ok = true) :
+    ((run cfg (init n entries) evs).server.executed).Perm ((run cfg (init m entries) evs').server.executed) :=
+  (each_once cfg n hn1 entries evs hdone hok).trans (each_once cfg m hm1 entries evs' hdone' hok').symm
+
+/-- each Lua script is loaded exactly as often as a passing entry asks for it (once per `lua` aux record) -/
+theorem scripts_loaded_once (cfg : Cfg) (n : Nat) (hn1 : 1 ≤ n) (entries : List Entry) (evs : List Ev)
+    (hdone : ∀ w, w < n → ((run cfg (init n entries) evs).workers w).phase = .returned)
+    (hok : ∀ x ∈ (run cfg (init n entries) evs).server.log, x.ok = true) :
+    (((run cfg (init n entries) evs).server.executed).filter fun p => decide (p.2.name = .scriptLoad)).Perm
+      ((expected cfg entries).filter fun p => decide (p.2.name = .scriptLoad)) :=
+  (each_once cfg n hn1 entries evs hdone hok).filter _
+
+/-! ## Order: one worker restores sequentially; many workers keep the order *per target key* unless a key is split over entries -/
+
+/-- With a single worker (`parallel = 1`) the target executes exactly the sequential command list, in order. -/
+theorem parallel1_in_order (cfg : Cfg) (entries : List Entry) (evs : List Ev)
+    (hdone : ((run cfg (init 1 entries) evs).workers 0).phase = .returned)
+    (hok : ∀ x ∈ (run cfg (init 1 entries) evs).server.log, x.ok = true) :
+    (run cfg (init 1 entries) evs).server.executed = expected cfg entries := by
+  have hall := reachable cfg 1 entries evs
+  have ho : OrdInv cfg entries (fun _ => true) (run cfg (init 1 entries) evs) :=
+    ordInv_run_n1 evs (allInv_init cfg 1 entries) (ordInv_init cfg 1 entries _) (Nat.le_refl 1)
+  have hn := run_n cfg (init 1 entries) evs
+  have := ordInv_final hall ho (by rw [hn]; exact Nat.le_refl 1)
+    (fun w hw => by rw [hn] at hw; have : w = 0 := by simp only [init] at hw; omega
+                    subst this; exact hdone) hok
+  rw [List.filter_eq_self.mpr (fun _ _ => rfl), List.filter_eq_self.mpr (fun _ _ => rfl)] at this
+  exact this
+
+/-- "not chunked": no two passing entries write the same target key (so no hash is delivered as several chunk entries,
+    and `target.db` does not merge equal key names of different databases), and an entry's commands address its own key. -/
+def Unchunked (cfg : Cfg) (entries : List Entry) : Prop := (keysQ cfg entries).Nodup ∧ OwnKey cfg
+
+/-- VALUE EQUALITY, under the explicit hypothesis `parallel = 1 ∨ ¬chunked` (deviation D12):
+    after a complete error-free run, every target key holds exactly what the sequential restore leaves there.
+    Full statement (false for the pinned code, see `counterexample_chunked_hash_parallel`): the same without `hyp`. -/
+theorem value_equality_partial (cfg : Cfg) (n : Nat) (hn1 : 1 ≤ n) (entries : List Entry) (evs : List Ev)
+    (hyp : n = 1 ∨ Unchunked cfg entries)
+    (hdone : ∀ w, w < n → ((run cfg (init n entries) evs).workers w).phase = .returned)
+    (hok : ∀ x ∈ (run cfg (init n entries) evs).server.log, x.ok = true) (d : Nat) (k : Bytes) :
+    valueAfter (run cfg (init n entries) evs).server.log d k = valueAfter (seqLog cfg entries) d k := by
+  have hseq : ((seqLog cfg entries).map fun x => (x.db, x.cmd)) = expected cfg entries := by
+    simp [seqLog, List.map_map, Function.comp_def]
+  have hsok : ∀ x ∈ seqLog cfg entries, x.ok = true := by
+    intro x hx
+    simp only [seqLog, List.mem_map] at hx
+    obtain ⟨p, -, rfl⟩ := hx
+    rfl
+  rw [valueAfter_eq _ hok, valueAfter_eq (seqLog cfg entries) hsok, hseq]
+  have hall := reachable cfg n entries evs
+  have hn := run_n cfg (init n entries) evs
+  have key : (run cfg (init n entries) evs).server.executed.filter (onKey (d, k)) = (expected cfg entries).filter (onKey (d, k)) := by
+    rcases hyp with h1 | ⟨hnd, hown⟩
+    · subst h1
+      rw [parallel1_in_order cfg entries evs (hdone 0 (by omega)) hok]
+    · have ho : OrdInv cfg entries (onKey (d, k)) (run cfg (init n entries) evs) :=
+        ordInv_run_keys hown (d, k) evs (allInv_init cfg n entries) (uInv_init cfg n entries hnd) (ordInv_init cfg n entries _)
+      exact ordInv_final hall ho (by rw [hn]; exact hn1) (fun w hw => hdone w (by rw [hn] at hw; exact hw)) hok
+  simp only [Server.executed] at key
+  rw [key]
+
+/-! ## Progress: the model does not get stuck, and every input has a completing schedule -/
+
+/-- every action of a worker that has not returned strictly decreases `mu` (entries still queued, weighted by their commands,
+    plus what the worker holds): no worker can act forever, and a worker that has not returned can always act. -/
+theorem worker_progress (cfg : Cfg) (s : State) (w : Nat) (hw : w < s.n) (fail : Bool)
+    (h : (s.workers w).phase ≠ .returned) :
+    mu cfg (step cfg s (.worker w fail)) w < mu cfg s w := by
+  simp only [step, hw, if_true]
+  exact mu_stepWorker cfg s w fail h
+
+/-- a schedule that completes the run for ANY configuration, worker count and entry list: worker 0 does all the work,
+    then every worker sees the closed channel, then the parent collects -/
+def completeSched (cfg : Cfg) (n : Nat) (entries : List Entry) : List Ev :=
+  List.replicate (mu cfg (init n entries) 0 + 1) (.worker 0 false) ++ (List.range n).map (fun w => Ev.worker w false) ++ [.main]
+
+/-- NON-VACUITY at full generality: for every configuration, every `N ≥ 1` and every entry list there is a schedule under which
+    the run completes successfully with every worker returned and no error reply — the hypotheses of `each_once`,
+    `value_equality_partial`, `terminates_after_all` are satisfiable for every input, and the model cannot deadlock on it. -/
+theorem exists_complete_run (cfg : Cfg) (n : Nat) (hn : 1 ≤ n) (entries : List Entry) :
+    (run cfg (init n entries) (completeSched cfg n entries)).result = some true ∧
+    (∀ w, w < n → ((run cfg (init n entries) (completeSched cfg n entries)).workers w).phase = .returned) ∧
+    (∀ x ∈ (run cfg (init n entries) (completeSched cfg n entries)).server.log, x.ok = true) := by
+  -- phase 1: worker 0 alone
+  have hnf1 : NoFail (List.replicate (mu cfg (init n entries) 0 + 1) (Ev.worker 0 false)) := by
+    intro ev hev w h; rw [List.eq_of_mem_replicate hev] at h; simp at h
+  have hnf2 : NoFail ((List.range n).map fun w => Ev.worker w false) := by
+    intro ev hev w h
+    simp only [List.mem_map] at hev
+    obtain ⟨v, -, rfl⟩ := hev
+    simp at h
+  let s1 := run cfg (init n entries) (List.replicate (mu cfg (init n entries) 0 + 1) (.worker 0 false))
+  have h1ret : (s1.workers 0).phase = .returned := drained cfg 0 (init n entries) (by simp only [init]; omega)
+  obtain ⟨h1n, h1res, h1oth⟩ := run_single_frame cfg 0 (mu cfg (init n entries) 0 + 1) (init n entries)
+  have h1ok : ∀ x ∈ s1.server.log, x.ok = true := allOk_run cfg _ _ hnf1 (by simp [init])
+  have h1all : AllInv cfg entries s1 := allInv_run _ (allInv_init cfg n entries)
+  have h1n' : s1.n = n := h1n
+  have h1q : s1.queue = [] := by
+    rcases h1all.term.ret 0 (by rw [h1n']; omega) h1ret with h | h
+    · obtain ⟨x, hx, hxo⟩ := h1all.src.src 0 h
+      rw [h1ok x hx] at hxo; exact absurd hxo (by decide)
+    · exact h
+  have h1quiet : Quiet s1 := by
+    refine ⟨h1q, fun w _ => ?_⟩
+    by_cases hw0 : w = 0
+    · subst hw0; exact Or.inr h1ret
+    · left; rw [h1oth w hw0]; rfl
+  -- phase 2: every worker once
+  obtain ⟨-, h2n, h2res, h2ret, -⟩ := quiet_run cfg (List.range n) s1
+    (fun w hw => by rw [h1n']; exact List.mem_range.mp hw) h1quiet
+  let s2 := run cfg s1 ((List.range n).map fun w => Ev.worker w false)
+  have h2ok : ∀ x ∈ s2.server.log, x.ok = true := allOk_run cfg _ _ hnf2 h1ok
+  have h2all : AllInv cfg entries s2 := allInv_run _ h1all
+  have h2n' : s2.n = n := h2n.trans h1n'
+  have h2none : s2.result = none := h2res.trans h1res
+  have h2allret : allReturned s2 = true := by
+    rw [allReturned_iff]; intro w hw; exact h2ret w (List.mem_range.mpr (by rw [h2n'] at hw; exact hw))
+  have h2noerr : anyErr s2 = false := by
+    cases ha : anyErr s2 with
+    | false => rfl
+    | true =>
+      obtain ⟨w, -, he⟩ := (anyErr_iff s2).mp ha
+      obtain ⟨x, hx, hxo⟩ := h2all.src.src w he
+      rw [h2ok x hx] at hxo; exact absurd hxo (by decide)
+  -- phase 3: the parent
+  have hrun : run cfg (init n entries) (completeSched cfg n entries) = stepMain s2 := by
+    simp only [completeSched, run, List.foldl_append, List.foldl_cons, List.foldl_nil, step]
+    rfl
+  have hmain : stepMain s2 = { s2 with result := some true } := by
+    simp [stepMain, h2none, h2allret, h2noerr]
+  rw [hrun, hmain]
+  refine ⟨rfl, fun w hw => h2ret w (List.mem_range.mpr hw), h2ok⟩
+
+/-! ## Facts the model takes from the shape of the Go source (regenerated by factgen on every run) -/
+
+/-- In both `syncRDBFile` and `restoreRDBFile` (current source): `lastdb` is a variable of the worker goroutine, initialised
+    to 0 (the database of a fresh connection, `Worker.lastdb := 0` / `Server.sel := 0`); the SELECT bookkeeping stands before
+    `RestoreRdbEntry`; the result of `RestoreRdbEntry` is looked at (restore mode: since fixes/C07-restore-error.patch —
+    this is what makes `Mode.restoreFixed` the model of the current code); the parent waits with `wg.Wait()`. -/
+theorem source_facts :
+    Generated.C07.syncLastdbInit = 0 ∧ Generated.C07.restoreLastdbInit = 0 ∧
+    Generated.C07.syncLastdbPerWorker = true ∧ Generated.C07.restoreLastdbPerWorker = true ∧
+    Generated.C07.syncSelectBeforeRestore = true ∧ Generated.C07.restoreSelectBeforeRestore = true ∧
+    Generated.C07.syncRestoreErrorChecked = true ∧ Generated.C07.restoreRestoreErrorChecked = true ∧
+    Generated.C07.syncWaitsForWorkers = true ∧ Generated.C07.restoreWaitsForWorkers = true := by decide
+
+/-! ## Non-vacuity witnesses and counter-examples (kernel-evaluated runs of the model) -/
+
+/-- demo configuration: db 9 filtered, key "x" filtered, key_exists = rewrite, Lua not filtered -/
+def demoCfg (mode : Mode) (tdb : Option Nat) : Cfg :=
+  { mode := mode, targetDB := tdb, filterDB := fun d => d == 9, filterKey := fun k => k == [120],
+    filterSlot := fun _ => false, restoreCmds := concreteCmds true false }
+
+/-- keys spread over databases 0, 3, 5, 9 in no particular order; a Lua record; a two-field big hash that expires -/
+def demoEntries : List Entry :=
+  [ { db := 3, key := [97] }, { db := 0, key := [98] }, { db := 3, key := [120] }, { db := 9, key := [99] },
+    { db := 0, key := [108, 117, 97], kind := 1, body := [[1, 2]] },
+    { db := 5, key := [104], kind := 2, expire := true, body := [[1], [2]] }, { db := 3, key := [100] } ]
+
+/-- three workers, commands interleaved -/
+def demoSched : List Ev :=
+  [ .worker 0 false, .worker 1 false, .worker 2 false,   -- w0 takes a (db 3: SELECT pending), w1 takes b (db 0), w2 takes x (db 3)
+    .worker 2 false,                                     -- w2: SELECT 3, then key filter: dropped
+    .worker 0 false, .worker 1 false, .worker 0 false,   -- w0: SELECT 3 ; w1: RESTORE b ; w0: RESTORE a
+    .worker 2 false, .worker 2 false,                    -- w2 takes c (db 9: filtered), takes lua (db 0 ≠ 3: SELECT pending)
+    .worker 1 false, .worker 1 false,                    -- w1 takes h (db 5), SELECT 5
+    .worker 2 false, .worker 1 false, .worker 2 false,   -- w2: SELECT 0 ; w1: DEL h ; w2: SCRIPT LOAD
+    .worker 0 false, .worker 1 false, .worker 0 false,   -- w0 takes d (db 3 = lastdb: no SELECT) ; w1: HSET ; w0: RESTORE d
+    .worker 1 false, .worker 1 false,                    -- w1: HSET, PEXPIRE
+    .main,                                               -- parent still blocked
+    .worker 0 false, .worker 1 false, .worker 2 false, .main ]
+
+example : (run (demoCfg .sync none) (init 3 demoEntries) demoSched).result = some true := by decide
+example : (run (demoCfg .sync none) (init 3 demoEntries) (demoSched.take 20)).result = none := by decide
+example : ((run (demoCfg .sync none) (init 3 demoEntries) demoSched).server.log.map fun x => (x.conn, x.db, x.cmd.name)) =
+    [(1, 0, .restore), (0, 3, .restore), (1, 5, .del), (2, 0, .scriptLoad), (1, 5, .hset), (0, 3, .restore), (1, 5, .hset), (1, 5, .pexpire)] := by
+  decide
+
+
+/-- hypotheses of `each_once` / `value_equality_partial` hold for the demo run (3 workers, 7 entries, 4 databases) -/
+example : (∀ w, w < 3 → ((run (demoCfg .sync none) (init 3 demoEntries) demoSched).workers w).phase = .returned) ∧
+    (∀ x ∈ (run (demoCfg .sync none) (init 3 demoEntries) demoSched).server.log, x.ok = true) := by decide
+
+/-- hypothesis of `conn_db_invariant`: after 10 events worker 1 holds the big hash of db 5 and is about to send DEL -/
+example : ((run (demoCfg .sync none) (init 3 demoEntries) (demoSched.take 11)).workers 1).phase =
+    .run { db := 5, key := [104], kind := 2, expire := true, body := [[1], [2]] }
+      (concreteCmds true false { db := 5, key := [104], kind := 2, expire := true, body := [[1], [2]] }) := by decide
+
+/-- with `target.db = 7` everything that passes the filters lands in database 7 -/
+example : ((run (demoCfg .sync (some 7)) (init 2 demoEntries) (roundRobin 2 12)).server.log.map fun x => x.db) =
+    [7, 7, 7, 7, 7, 7, 7, 7] ∧ (run (demoCfg .sync (some 7)) (init 2 demoEntries) (roundRobin 2 12)).result = some true := by decide
+
+/-- the `¬chunked` hypothesis is satisfiable (and holds for the demo entries) -/
+example : Unchunked (demoCfg .sync none) demoEntries := ⟨by decide, concreteCmds_ownKey true false⟩
+
+/-- sync mode: the target rejects the RESTORE of key "b" ⇒ the run reports a failure, the other workers still drain the queue -/
+example :
+    let s := run (demoCfg .sync none) (init 2 demoEntries)
+      ([.worker 0 false, .worker 1 false, .worker 0 false, .worker 1 true] ++ List.replicate 16 (.worker 0 false) ++ [.main])
+    s.result = some false ∧ s.queue = [] ∧ (s.workers 1).err = true ∧ (s.workers 0).err = false := by decide
+
+/-- D11, pinned `restoreRDBFile`: the target rejects the only RESTORE, the key is absent from the target, and the run
+    still finishes as a success.  (`error_reported` excludes exactly this mode.) -/
+theorem counterexample_restore_error_dropped :
+    let s := run (demoCfg .restorePinned none) (init 1 [{ db := 0, key := [97] }])
+      [.worker 0 false, .worker 0 true, .worker 0 false, .main]
+    s.result = some true ∧ (∃ x ∈ s.server.log, x.ok = false) ∧ valueAfter s.server.log 0 [97] = none := by decide
+
+/-- the same schedule after fixes/C07-restore-error.patch: the failure is reported -/
+example :
+    (run (demoCfg .restoreFixed none) (init 1 [{ db := 0, key := [97] }])
+      [.worker 0 false, .worker 0 true, .worker 0 false, .main]).result = some false := by decide
+
+/-- one hash delivered as two chunk entries (first chunk: `NeedReadLen = 1`, continuation: `NeedReadLen = 0`) -/
+def chunkEntries : List Entry :=
+  [ { db := 0, key := [104], kind := 2, body := [[1]] }, { db := 0, key := [104], kind := 3, body := [[2]] } ]
+
+/-- worker 0 takes the first chunk, worker 1 the second; worker 1's HSET reaches the target before worker 0's DEL -/
+def chunkSched : List Ev :=
+  [ .worker 0 false, .worker 1 false, .worker 1 false, .worker 0 false, .worker 0 false, .worker 0 false, .worker 1 false, .main ]
+
+/-- D12: with two workers and `key_exists = rewrite` the DEL issued for the first chunk of a big hash can wipe a later
+    chunk that another worker has already written: the run succeeds, every command was executed exactly once
+    (`each_once`), and the hash has lost field 2.  The entries violate `Unchunked`, the worker count is not 1. -/
+theorem counterexample_chunked_hash_parallel :
+    let s := run (demoCfg .sync none) (init 2 chunkEntries) chunkSched
+    s.result = some true ∧ (∀ x ∈ s.server.log, x.ok = true) ∧
+    valueAfter s.server.log 0 [104] = some [[1]] ∧
+    valueAfter (seqLog (demoCfg .sync none) chunkEntries) 0 [104] = some [[1], [2]] ∧
+    ¬ (keysQ (demoCfg .sync none) chunkEntries).Nodup := by decide
+
+/-- … while one worker restores the same chunks correctly -/
+example : valueAfter (run (demoCfg .sync none) (init 1 chunkEntries) (roundRobin 1 6)).server.log 0 [104] = some [[1], [2]] := by
+  decide
+
+/-- zero workers "succeed" without restoring anything: `1 ≤ n` in `terminates_after_all` / `each_once` is necessary -/
+example : (run (demoCfg .sync none) (init 0 demoEntries) [.main]).result = some true ∧
+    (run (demoCfg .sync none) (init 0 demoEntries) [.main]).queue = demoEntries := by decide
+
 end RSVerif.Properties.C07
